@@ -54,7 +54,7 @@ class Adbd(object):
     """The device.  `fs`: path -> bytes (files) ; dirs: path -> list of (name, mode, size, mtime)."""
 
     def __init__(self, maxdata=4096, remote_base=0x51, shell=None, fs=None, dirs=None, stats=None, auth=None, wrte_plan=None, data_plan=None,
-                 fail=None, okay_delay=False, strict=True, banner=b'device::sim\0'):
+                 fail=None, okay_delay=False, strict=True, banner=b'device::sim\0', version=VERSION):
         self.maxdata = maxdata
         self.next_remote = remote_base
         self.shell = shell or (lambda cmd: [])
@@ -68,6 +68,7 @@ class Adbd(object):
         self.okay_delay = okay_delay     # send the device's own WRTE before acknowledging the host's WRTE (full duplex)
         self.strict = strict
         self.banner = banner
+        self.version = version
         self.to_host = bytearray()
         self.from_host = bytearray()
         self.streams = {}
@@ -122,7 +123,7 @@ class Adbd(object):
             self.cnxn_log.append((a0, a1, data))
             if self.auth is None:
                 self.connected = True
-                self.send(b'CNXN', VERSION, self.maxdata, self.banner)
+                self.send(b'CNXN', self.version, self.maxdata, self.banner)
             else:
                 self.challenge()
             return
@@ -131,14 +132,14 @@ class Adbd(object):
                 self.sig_log.append((data, self.last_token))
                 if self.auth['accept'](data, self.last_token):
                     self.connected = True
-                    self.send(b'CNXN', VERSION, self.maxdata, self.banner)
+                    self.send(b'CNXN', self.version, self.maxdata, self.banner)
                 else:
                     self.challenge()
             elif a0 == AUTH_RSAPUBLICKEY:
                 self.pubkey_log.append(data)
                 if self.auth.get('accept_pubkey'):
                     self.connected = True
-                    self.send(b'CNXN', VERSION, self.maxdata, self.banner)
+                    self.send(b'CNXN', self.version, self.maxdata, self.banner)
             return
         if not self.connected:
             self.bad('C13: %r sent while not connected' % cmd)
